@@ -3,6 +3,7 @@ import J5V.Compile.ConvertProofs
 import J5V.Compile.Entity
 import J5V.Generated.CompileconstsFacts
 import J5V.Compile.EntityProofs
+import J5V.Compile.PathProofs
 /-!
 # C17 — entity declarations expand to a complete, mutually consistent API
 
@@ -326,6 +327,30 @@ theorem C17_query_service_skeleton (c : Ctx) (pkg : Str) (e : Entity) :
           toCamel e.name ++ b!"Events" ++ b!"Response", .events, some .get) ] :=
   ⟨queryService_svcs c pkg e, rfl⟩
 
+/-- **The query routes in explicit `{key}` form, on the skeleton.** For a base path made of clean
+literal parts `b1 … bn` (`CleanPart`: what `path.Clean` keeps — non-empty, not `.` / `..`, no slash —
+and not starting with `:`; the default `BaseUrlPath`, package segments + snake(entity), is of that
+form) and key names without a slash, the `google.api.http` patterns the compiler emits for the
+three rpcs of `<C>QueryService` (`C17_query_service_skeleton`) are
+`/b1/…/bn/q/{snake(k1)}/…/{snake(km)}` for Get over the primary / shard keys in declaration order
+(`C17_primary_keys`), the same over the shard keys for List, and `…/{snake(km)}/events` for Events:
+`path.Join` + `path.Clean` change nothing, `strings.Split` gives the parts back, every `:key` part
+becomes `{snake(key)}` and every literal part stays. -/
+theorem C17_query_paths_skeleton (pkg : Str) (e : Entity) (bparts : List Str)
+    (hb : baseUrlPath pkg e = joinWith b!"/" bparts) (hbne : bparts ≠ [])
+    (hbc : ∀ p ∈ bparts, CleanPart p ∧ p.head? ≠ some 58)
+    (hk : ∀ k ∈ e.keys, 47 ∉ k.prop.name) :
+    (methodSkelOf (some (b!"/" ++ baseUrlPath pkg e ++ b!"/q")) (getMethod e)).http.map (·.path) =
+      some (b!"/" ++ joinWith b!"/" (bparts ++ [b!"q"] ++
+        ((getKeys e).map fun k => b!"{" ++ toSnake k.name ++ b!"}"))) ∧
+    (methodSkelOf (some (b!"/" ++ baseUrlPath pkg e ++ b!"/q")) (listMethod e)).http.map (·.path) =
+      some (b!"/" ++ joinWith b!"/" (bparts ++ [b!"q"] ++
+        ((listKeys e).map fun k => b!"{" ++ toSnake k.name ++ b!"}"))) ∧
+    (methodSkelOf (some (b!"/" ++ baseUrlPath pkg e ++ b!"/q")) (eventsMethod e)).http.map (·.path) =
+      some (b!"/" ++ joinWith b!"/" (bparts ++ [b!"q"] ++
+        ((getKeys e).map fun k => b!"{" ++ toSnake k.name ++ b!"}") ++ [b!"events"])) :=
+  query_paths pkg e bparts hb hbne hbc hk
+
 /-! ## Non-vacuity -/
 
 def exEntity : Entity :=
@@ -348,6 +373,23 @@ example : (getMethod exEntity).path = b!":fooId/:tenantId" := by decide
 example : (convEnum (statusEnum exEntity)).values =
     [(b!"FOO_BAR_STATUS_UNSPECIFIED", 0), (b!"FOO_BAR_STATUS_ACTIVE", 1), (b!"FOO_BAR_STATUS_DONE", 2)] := by
   decide
+
+/-- the hypotheses of `C17_query_paths_skeleton` on the example entity (default base path) and the
+three emitted patterns -/
+example : baseUrlPath b!"foo.v1" exEntity = joinWith b!"/" [b!"foo", b!"v1", b!"foo_bar"] ∧
+    (∀ k ∈ exEntity.keys, 47 ∉ k.prop.name) ∧
+    (methodSkelOf (some (b!"/" ++ baseUrlPath b!"foo.v1" exEntity ++ b!"/q")) (getMethod exEntity)).http.map (·.path) =
+      some b!"/foo/v1/foo_bar/q/{foo_id}/{tenant_id}" ∧
+    (methodSkelOf (some (b!"/" ++ baseUrlPath b!"foo.v1" exEntity ++ b!"/q")) (listMethod exEntity)).http.map (·.path) =
+      some b!"/foo/v1/foo_bar/q/{tenant_id}" ∧
+    (methodSkelOf (some (b!"/" ++ baseUrlPath b!"foo.v1" exEntity ++ b!"/q")) (eventsMethod exEntity)).http.map (·.path) =
+      some b!"/foo/v1/foo_bar/q/{foo_id}/{tenant_id}/events" := by decide
+
+example : ∀ p ∈ [b!"foo", b!"v1", b!"foo_bar"], CleanPart p ∧ p.head? ≠ some 58 := by
+  intro p hp
+  simp only [List.mem_cons, List.mem_nil_iff, or_false] at hp
+  rcases hp with rfl | rfl | rfl <;>
+    exact ⟨⟨by decide, by decide, by decide, by decide⟩, by decide⟩
 
 /-- the witness of the counterexample: `FooA` -/
 example : toCamel (b!"FooA" ++ b!"State") = b!"FooAstate" ∧ toCamel b!"FooA" ++ b!"State" = b!"FooAState" := by
